@@ -719,6 +719,7 @@ func (w *World) computeModsets() {
 					if ct, ok := w.Spec.Contracts[name]; ok {
 						add(w.modHeapsOfContract(ct, callee.Signature)...)
 					}
+					add(w.ifaceSliceArgHeaps(name, c)...)
 					for _, a := range c.Args {
 						if isFnTyped(a) {
 							extArgs[f] = append(extArgs[f], a)
@@ -793,7 +794,7 @@ func (w *World) computeModsets() {
 			// a storage read that fails inside the caller's own callback is the callback's to report:
 			// the read-failure flag tracks the reads of the call under verification
 			for h := range w.modsets[api] {
-				if h != "G$rdfailed" && !user[h] {
+				if !reentryExempt[h] && !user[h] {
 					user[h] = true
 					changed = true
 				}
@@ -855,7 +856,7 @@ func (w *World) CallSiteMods(f, g *ssa.Function, args []ssa.Value) map[string]bo
 		for _, n := range reentryAPI {
 			if a, ok := w.Fns[n]; ok {
 				for h := range w.modsets[a] {
-					if h != "G$rdfailed" {
+					if !reentryExempt[h] {
 						out[h] = true
 					}
 				}
@@ -934,3 +935,34 @@ func (w *World) wholeFieldHeap(loc string) ([]string, bool) {
 	}
 	return nil, false
 }
+
+// ifaceSliceArgHeaps: a function outside the package that has no hand-written contract and is
+// handed a slice wrapped in an interface value (sort.Slice(x interface{}, less)) is taken to
+// write that slice's elements: the element heaps of every such argument.
+func (w *World) ifaceSliceArgHeaps(name string, c *ssa.CallCommon) []string {
+	if ct, ok := w.Spec.Contracts[name]; ok && ct.Line != "default frame of an unmodelled external" {
+		return nil
+	}
+	var out []string
+	for _, a := range c.Args {
+		mi, ok := a.(*ssa.MakeInterface)
+		if !ok {
+			continue
+		}
+		sl, ok := mi.X.Type().Underlying().(*types.Slice)
+		if !ok {
+			continue
+		}
+		if st, key, local := w.localStruct(sl.Elem()); st != nil && local {
+			out = append(out, w.structHeaps(st, key)...)
+		} else {
+			out = append(out, w.ElemHeap(sl.Elem()))
+		}
+	}
+	return out
+}
+
+// reentryExempt: ghost state a caller-supplied callback is taken not to change for the call under
+// verification: a read failing inside the callback is the callback's to report (rdfailed), and the
+// callback never holds the caller's checked-out pool objects (pooled).
+var reentryExempt = map[string]bool{"G$rdfailed": true, "X$_$pooled": true}
